@@ -563,6 +563,55 @@ print(n, h.hexdigest())
 """
 
 
+def falsy_id_rebuild(col):
+    """models built directly with the library's constructors, every object given an explicit ID - among them 0 and "" - and built twice:
+    the raw logs (IDs included) of the two builds must be equal"""
+    from pDESy.model.base_component import BaseComponent
+    from pDESy.model.base_facility import BaseFacility
+    from pDESy.model.base_organization import BaseOrganization
+    from pDESy.model.base_product import BaseProduct
+    from pDESy.model.base_project import BaseProject
+    from pDESy.model.base_task import BaseTask
+    from pDESy.model.base_team import BaseTeam
+    from pDESy.model.base_worker import BaseWorker
+    from pDESy.model.base_workflow import BaseWorkflow
+    from pDESy.model.base_workplace import BaseWorkplace
+
+    def build(ids):
+        a = BaseTask("a", ID=ids[0], default_work_amount=2.0, need_facility=True)
+        b = BaseTask("b", ID=ids[1], default_work_amount=2.0)
+        b.append_input_task(a)
+        c = BaseComponent("c", ID=ids[2])
+        c.append_targeted_task(a)
+        f = BaseFacility("f", ID=ids[3], workamount_skill_mean_map={"a": 1.0}, cost_per_time=1.0)
+        wp = BaseWorkplace("wp", ID=ids[4], facility_list=[f])
+        wp.append_targeted_task(a)
+        w0 = BaseWorker("w0", ID=ids[5], workamount_skill_mean_map={"a": 1.0, "b": 1.0}, facility_skill_map={"f": 1.0}, cost_per_time=1.0)
+        w1 = BaseWorker("w1", ID=ids[6], workamount_skill_mean_map={"b": 1.0}, cost_per_time=2.0)
+        tm = BaseTeam("tm", ID=ids[7], worker_list=[w0, w1])
+        tm.extend_targeted_task_list([a, b])
+        p = BaseProject(product=BaseProduct([c]), workflow=BaseWorkflow([a, b]), organization=BaseOrganization([tm], [wp]))
+        p.simulate(max_time=20)
+        return jdump(S.adopt(p))
+
+    base = ["ta", "tb", "cc", "ff", "wp", "w0", "w1", "tm"]
+    for pos in range(len(base)):
+        for val in (0, ""):
+            ids = list(base)
+            ids[pos] = val
+            try:
+                d1, d2 = build(ids), build(ids)
+            except Exception as e:
+                col.extra["falsy-id-build-raised:%s" % type(e).__name__] += 1
+                continue
+            col.evaluations += 2
+            col.checks["c09.falsy-ids"] += 1
+            col.transitions.add(hash(("falsyid", pos, repr(val))))
+            if d1 != d2:
+                col.violation({"property": "C09", "sig": "C09:two-builds-with-the-same-explicit-IDs-differ(an-ID-of-0-or-empty-string)", "kind": "falsyid", "address_dependent": True,
+                               "detail": {"ids": ids, "first_difference": first_diff(d1, d2)}})
+
+
 def cross_process(col):
     """Same sub-family in two fresh interpreters with different PYTHONHASHSEED, library classes (id hashes)."""
     here = os.path.dirname(os.path.dirname(os.path.dirname(os.path.abspath(__file__))))
@@ -686,6 +735,7 @@ def run(tier, seed):
     history_dependence(col)
     default_id_rebuild(col)
     string_hash_seeds(col)
+    falsy_id_rebuild(col)
     col.merge(engines.fanout(edit_cases(), work_edits, seed=seed))
     ei = event_items(tier)
     col.merge(engines.fanout(ei, work_events, seed=seed))
@@ -727,6 +777,10 @@ def replay(v):
     if v.get("kind") == "defaultid":
         col = engines.Collector()
         default_id_rebuild(col)
+        return col.violations
+    if v.get("kind") == "falsyid":
+        col = engines.Collector()
+        falsy_id_rebuild(col)
         return col.violations
     if v.get("kind") == "strseed":
         col = engines.Collector()
